@@ -58,6 +58,7 @@ package query
 //@   loop 5 invariant 0 <= i && i < len(*ncs) && i == at_loop(1, i) && len(*ncs) == at_loop(1, len(*ncs))
 //@   loop 5 decreases commonFactor
 //@   loop 6 invariant -1 <= rangeindex
+//@   loop 6 invariant exactdiv: implies(rangeindex == -1, nc.Number * commonFactor == before_loop(3, nc.Number))
 //@   loop 6 invariant 0 <= i && i < len(*ncs) && i == at_loop(1, i) && len(*ncs) == at_loop(1, len(*ncs))
 //@   loop 6 decreases len(nc.Summands) - rangeindex
 //@   loop 7 invariant 1 <= i
@@ -95,3 +96,70 @@ package query
 //@ func cleanTagConditions$1
 //@   requires 0 <= i && i < len(*lcs) && 0 <= j && j < len(*lcs)
 //@   ensures result == tagLess((*lcs)[i].SubQuery, (*lcs)[i].TagName, (*lcs)[j].SubQuery, (*lcs)[j].TagName)
+
+// ---------------------------------------------------------------------------
+// C03: meaning of conditions and of their negation.
+// A condition set with no conjunct means "no condition" (true), a conjunct with no atom is true,
+// the impossible condition is false. Atoms are interpreted over an arbitrary stream valuation given
+// by uninterpreted functions (tag state, variable values, flag word), so every ensures clause below
+// holds for every stream.
+// ---------------------------------------------------------------------------
+//@ bv uint8
+
+// tag atoms: the tag has exactly one of four states; the atom accepts a set of states
+//@ uninterp tagstate(sub string, name string) uint8
+//@ axiom tagstate_onehot: forall(string, s, 0, inf, forall(string, n, 0, inf, tagstate(s, n) == 1 || tagstate(s, n) == 2 || tagstate(s, n) == 4 || tagstate(s, n) == 8))
+//@ pure tagsem(c any) bool = c.Accept & tagstate(c.SubQuery, c.TagName) != 0
+
+//@ func (*TagCondition).invert
+//@   prop C03
+//@   use tagstate_onehot
+//@   ensures len(result) == 1 && len(result[0]) == 1 && tagsem(result[0][0].(*TagCondition)) == !tagsem(c)
+
+// host atoms: meaning = (address matches under the masks) xor Invert; negation flips Invert and keeps the rest
+//@ func (*HostCondition).invert
+//@   prop C03
+//@   ensures len(result) == 1 && len(result[0]) == 1 && result[0][0].(*HostCondition).Invert == !c.Invert
+//@   ensures same_slice(result[0][0].(*HostCondition).HostConditionSources, c.HostConditionSources) && same_slice(result[0][0].(*HostCondition).Host, c.Host)
+//@   ensures same_slice(result[0][0].(*HostCondition).Mask4, c.Mask4) && same_slice(result[0][0].(*HostCondition).Mask6, c.Mask6)
+
+//@ func (*ImpossibleCondition).invert
+//@   prop C03
+//@   ensures len(result) == 0
+
+// number atoms: Number + sum(Factor_i * value_i) >= 0 over the integers.
+// nval: value of a variable in the stream at hand; nmul: multiplication, uninterpreted, with the one
+// ring law the proofs need (no nonlinear arithmetic reaches the solver); nt(e, k): k-th summand's
+// contribution; nsum(e, n): sum of the first n contributions (recursive, by its defining equations).
+//@ uninterp nval(sub string, typ uint8) int
+//@ uninterp nmul(a int, b int) int
+//@ axiom nmul_neg: forall(mathint, a, -inf, inf, forall(mathint, b, -inf, inf, forall_t(mathint, c, -inf, inf, trig(nmul(a, b), nmul(c, b)), implies(c == -a, nmul(c, b) == -nmul(a, b)))))
+//@ uninterp nt(e []NumberConditionSummand, k int) int
+//@ axiom nt_def: forall_slice(NumberConditionSummand, e, forall_t(k, 0, inf, nt(e, k), nt(e, k) == nmul(e[k].Factor, nval(e[k].SubQuery, e[k].Type))))
+//@ uninterp nsum(e []NumberConditionSummand, n int) int
+//@ axiom nsum_zero: forall_slice(NumberConditionSummand, e, nsum(e, 0) == 0)
+//@ axiom nsum_step: forall_slice(NumberConditionSummand, e, forall_t(n, 0, inf, nsum(e, n+1), nsum(e, n+1) == nsum(e, n) + nt(e, n)))
+// summands with the same variable and negated factor contribute the negated amount
+//@ lemma nt_neg uses nt_def, nmul_neg: forall_slice(NumberConditionSummand, e1, forall_slice(NumberConditionSummand, e2, forall(k, 0, inf, \
+//@     implies(e1[k].Factor == -e2[k].Factor && e1[k].SubQuery == e2[k].SubQuery && e1[k].Type == e2[k].Type, nt(e1, k) == -nt(e2, k)))))
+// lists whose contributions are negated pairwise have negated sums
+//@ lemma nsum_neg induct n uses nsum_zero, nsum_step: forall_slice(NumberConditionSummand, e1, forall_slice(NumberConditionSummand, e2, \
+//@     implies(forall(k, 0, n, nt(e1, k) == -nt(e2, k)), nsum(e1, n) == -nsum(e2, n))))
+//@ pure numsem(c any) bool = c.Number + nsum(c.Summands, len(c.Summands)) >= 0
+
+//@ func (*NumberCondition).invert
+//@   prop C03
+//@   use nt_neg, nsum_neg
+//@   requires -4611686018427387904 < c.Number && c.Number < 4611686018427387904
+//@   requires forall(k, 0, len(c.Summands), -4611686018427387904 < c.Summands[k].Factor && c.Summands[k].Factor < 4611686018427387904)
+//@   ensures len(result) == 1 && len(result[0]) == 1 && numsem(result[0][0].(*NumberCondition)) == !numsem(c)
+//@   loop 1 invariant -1 <= rangeindex && rangeindex < len(c.Summands) && len(cond.Summands) == rangeindex + 1 && cond.Number == -c.Number - 1
+//@   loop 1 invariant forall(k, 0, rangeindex+1, cond.Summands[k].Factor == -c.Summands[k].Factor && cond.Summands[k].SubQuery == c.Summands[k].SubQuery && cond.Summands[k].Type == c.Summands[k].Type)
+
+// negation of a conjunct: the empty conjunction is true, so its negation is the impossible condition
+// (a non-empty result, which callers do not mistake for "no condition")
+//@ func (Conditions).invert
+//@   prop C03
+//@   nosafety
+//@   noframe
+//@   ensures emptytrue: implies(len(cs) == 0, len(result) == 1 && len(result[0]) == 1 && isa(result[0][0], *ImpossibleCondition))
